@@ -2,7 +2,7 @@
     list-encoded operands.  Evaluated inside Coq (vm_compute) and, for volume,
     through extraction (Extract.v). *)
 From Coq Require Import ZArith List.
-From FastorV Require Import Base.Scalar Base.Mem Model.Cfg Model.Matmul Model.TMatmul Model.Expr Model.ExprInt Model.Reduce Base.Shape Model.Views.
+From FastorV Require Import Base.Scalar Base.Mem Model.Cfg Model.Matmul Model.TMatmul Model.Expr Model.ExprInt Model.Reduce Base.Shape Model.Views Model.RandomViews.
 Import ListNotations.
 
 Definition run_matmul_Z (c : cfg) (t : ety) (M K N : nat) (a b : list Z) : list Z :=
@@ -47,3 +47,16 @@ Definition run_admissible (oned : bool) (d : nat) (r : Z * Z * Z) : bool :=
   let '(f, l, s) := r in
   let u := (if oned then norm1d else normnd) (Z.of_nat d) (mkU f l s) in
   (0 <=? uf u)%Z && (uf u <=? ul u)%Z && (ul u <=? Z.of_nat d)%Z && (1 <=? us u)%Z && (uf u <? Z.of_nat d)%Z.
+
+(** C19: index-tensor and mask views on list-encoded integer data; [op] is a binary operator code of ExprInt (0 add 1 sub 2 mul 3 div), 100 = plain assignment *)
+Definition rv_op (op : nat) : Z -> Z -> Z := if (op =? 100)%nat then (fun _ y => y) else int_bin 64 op.
+Definition run_rv_read (idx : list nat) (A : list Z) : list Z := rv_read (fun p => nth p A 77777%Z) idx.
+Definition run_rv_write (op : nat) (idx : list nat) (rhs A : list Z) : list Z :=
+  map (rv_write (rv_op op) idx (fun k => nth k rhs 0%Z) (fun p => nth p A 77777%Z)) (seq 0 (length A + 1)).
+Definition run_filter_write (op : nat) (mask : list bool) (rhs A : list Z) : list Z :=
+  map (filter_write (rv_op op) (fun p => nth p mask false) (fun p => nth p rhs 0%Z) (length A) (fun p => nth p A 77777%Z)) (seq 0 (length A + 1)).
+Definition run_idx2 := idx2. Definition run_idx_col := idx_col. Definition run_idx_row := idx_row.
+Definition run_idx_it_range (ncols : nat) (it0 : list nat) (d : nat) (r : Z * Z * Z) : list nat :=
+  let '(f, l, s) := r in idx_it_range ncols it0 (to_nrange (normnd (Z.of_nat d) (mkU f l s))).
+Definition run_idx_range_it (ncols : nat) (d : nat) (r : Z * Z * Z) (it1 : list nat) : list nat :=
+  let '(f, l, s) := r in idx_range_it ncols (to_nrange (normnd (Z.of_nat d) (mkU f l s))) it1.
